@@ -61,6 +61,12 @@ ASSUMPTIONS = [
     '(out-of-bounds evaluation is the caller\'s choice there)',
     'a second noisy wrapper over a noisy one makes `<m>_before_noise` ambiguous in '
     'the documentation; colliding names are not compared',
+    'a ValueError from the constructor is an accepted refusal in two places only: '
+    'normalize over an infeasibility wrapper when no normalisation sample is feasible, '
+    'permute asked to permute an INTEGER parameter (the unchanged tree refuses neither)',
+    'layers found to return their statement by reference (identity probe) are reported '
+    'and then shielded by the recorder (deep copy) so that the remaining monitors of '
+    'the tree judge the other layers, not the downstream damage of that defect',
     'base references: BBOB / optproblems functions called directly on the raw array; '
     'Branin and Hartmann re-implemented from the published formulae (1e-10 relative)',
 ]
@@ -79,10 +85,10 @@ MIN_DISTINCT = {'quick': 800, 'thorough': 8000}
 
 def plan(tier, seed):
   return {'shards': 12 if tier == 'quick' else 16,
-          'budget_s': 55 if tier == 'quick' else 900}
+          'budget_s': 45 if tier == 'quick' else 900}
 
 
-N_CASES = {'quick': 6000, 'thorough': 400000}
+N_CASES = {'quick': 4800, 'thorough': 400000}
 DEPTHS = {'quick': [1, 1, 2, 2, 2, 3, 3], 'thorough': [1, 2, 2, 3, 3, 3, 4]}
 BATCHES = {'quick': [0, 1, 1, 2, 3, 4, 5, 7, 9], 'thorough': [0, 1, 2, 3, 5, 9, 17, 40]}
 
@@ -164,6 +170,12 @@ def build_node(m, kind, args, children):
       m.violation(f'evaluate-raised:{origin_label(origin, e)}:{type(e).__name__}{exc_tag(origin, node, e)}',
                   f'{origin}.evaluate raised {type(e).__name__} while {kind} was being '
                   f'constructed over it: {e}'[:300])
+    elif (kind == 'permute' and isinstance(e, ValueError) and any(
+        p['kind'] == 'INTEGER' and p['name'] in args['params']
+        for p in children[0].space['params'])):
+      # "permutes discrete/categorical parameters": refusing an INTEGER one in
+      # the constructor (like the continuous case) would be a legitimate answer
+      m.count('construct_refused:permute:integer-param')
     elif (kind == 'normalize' and isinstance(e, ValueError)
           and any(c.has_infeasible_wrapper() for c in children)):
       # refusing to normalise when no normalisation sample is feasible is a
